@@ -6,7 +6,9 @@ package main
 import (
 	"bufio"
 	"bytes"
+	"encoding/xml"
 	"fmt"
+	"io"
 	"math/big"
 	"math/rand"
 	"regexp"
@@ -183,6 +185,66 @@ func eqB(a []B, b []string) bool {
 
 func domPath(p []string) string { return "/" + strings.Join(p, "/") }
 
+// c17Oracle reads the document with the standard tokenizer alone: whether it is well formed, and which content
+// lines are written directly inside which domain path (in order). collide = a key is named like a sub-domain of
+// the same domain (known finding: the listing comparison is skipped then); long = a line the scanner refuses.
+func c17Oracle(doc []byte) (wellFormed bool, lines map[string][]string, order []string, collide bool, long bool) {
+	lines = map[string][]string{}
+	dec := xml.NewDecoder(bytes.NewReader(doc))
+	var stack []string
+	doms := map[string]bool{}
+	keys := map[string]bool{}
+	for {
+		tok, err := dec.Token()
+		if tok == nil {
+			if err != nil && err != io.EOF {
+				return false, nil, nil, false, false
+			}
+			break
+		}
+		switch t := tok.(type) {
+		case xml.StartElement:
+			stack = append(stack, t.Name.Local)
+			doms[strings.Join(stack, "/")] = true
+		case xml.EndElement:
+			stack = stack[:len(stack)-1]
+		case xml.CharData:
+			path := strings.Join(stack, "/")
+			segs := strings.Split(string(t), "\n")
+			if segs[len(segs)-1] == "" {
+				segs = segs[:len(segs)-1]
+			}
+			for _, seg := range segs {
+				if len(seg) >= bufio.MaxScanTokenSize {
+					long = true
+				}
+				seg = strings.TrimSuffix(seg, "\r")
+				l := strings.Trim(seg, " \t\n")
+				if l == "" || l[0] == '#' {
+					continue
+				}
+				if _, ok := lines[path]; !ok {
+					order = append(order, path)
+				}
+				lines[path] = append(lines[path], l)
+				k := l
+				if i := strings.IndexByte(l, '='); i >= 0 {
+					k = l[:i]
+				}
+				if k = strings.Trim(k, " \t\n"); k != "" {
+					keys[strings.TrimPrefix(path+"/"+k, "/")] = true
+				}
+			}
+		}
+	}
+	for k := range keys {
+		if doms[k] {
+			collide = true
+		}
+	}
+	return true, lines, order, collide, long
+}
+
 var c17Stats = struct {
 	sync.Mutex
 	m map[string]int
@@ -249,6 +311,32 @@ func c17RunCase(c *c17Case) []Failure {
 	if c.MustOk && err != nil {
 		fs = append(fs, Failure{Sig: "conf.InitFromBytes/rejects-wellformed/" + c.Kind,
 			Desc: fmt.Sprintf("InitFromBytes returned %q for a well-formed document (%s %s)", err.Error(), c.Kind, c.Inject)})
+	}
+	// whole or error, against the standard tokenizer alone: a document it rejects must be rejected; one it accepts
+	// must be accepted (unless a line is too long for the scanner) with every content line present under its domain
+	wf, olines, oorder, ocollide, olong := c17Oracle(doc)
+	switch {
+	case !wf && err == nil:
+		fs = append(fs, Failure{Sig: "conf.InitFromBytes/accepts-malformed/tokenizer-error", Desc: fmt.Sprintf("encoding/xml reports a token error in the document (%s) but InitFromBytes returned nil", c.Kind)})
+	case wf && olong && err == nil:
+		fs = append(fs, Failure{Sig: "conf.InitFromBytes/accepts-malformed/line-too-long", Desc: fmt.Sprintf("a line of the document (%s) is too long for bufio.Scanner but InitFromBytes returned nil", c.Kind)})
+	case wf && !olong && err != nil:
+		fs = append(fs, Failure{Sig: "conf.InitFromBytes/rejects-wellformed/" + c.Kind, Desc: fmt.Sprintf("encoding/xml accepts the document (%s) but InitFromBytes returned %q", c.Kind, err.Error())})
+	case wf && err == nil && !ocollide:
+		for i, pth := range oorder {
+			if i >= 40 || strings.ContainsAny(pth, "<") {
+				break
+			}
+			var got []string
+			if pm := c17Safe(func() { got = cf.GetDomainLine("/" + pth) }); pm != "" {
+				fs = append(fs, Failure{Sig: "conf.getter/panic", Desc: fmt.Sprintf("GetDomainLine(%q) panicked: %s", "/"+pth, pm)})
+				break
+			}
+			if fmt.Sprintf("%q", got) != fmt.Sprintf("%q", olines[pth]) {
+				fs = append(fs, Failure{Sig: "conf.InitFromBytes/line-dropped", Desc: fmt.Sprintf("the document (%s) has the content lines %q directly inside %q, GetDomainLine returns %q", c.Kind, olines[pth], "/"+pth, got)})
+				break
+			}
+		}
 	}
 	if err != nil {
 		return fs
@@ -1054,7 +1142,7 @@ var c17FixedPaths = []string{"/a<k>", "/a/<k>", "a<k>", "a/b", "/a/b/", "//a//b/
 
 func c17Gen(tier string, rng *rand.Rand) []c17Case {
 	var cs []c17Case
-	nd, ns := 260, 220
+	nd, ns := 300, 220
 	if tier == "thorough" {
 		nd, ns = 1200, 2500
 	}
